@@ -33,7 +33,7 @@ static void write_hunk_as_context(const std::vector<PatchLine>& old_lines, const
 {
     out << "*** " << old_range.start_line;
     if (old_range.number_of_lines > 1)
-        out << ',' << (old_range.start_line + old_range.number_of_lines - 1);
+        out << ',' << saturating_sub(saturating_add(old_range.start_line, old_range.number_of_lines), 1);
     out << " ****\n";
 
     if (!old_lines.empty()) {
@@ -46,7 +46,7 @@ static void write_hunk_as_context(const std::vector<PatchLine>& old_lines, const
 
     out << "--- " << new_range.start_line;
     if (new_range.number_of_lines > 1)
-        out << ',' << (new_range.start_line + new_range.number_of_lines - 1);
+        out << ',' << saturating_sub(saturating_add(new_range.start_line, new_range.number_of_lines), 1);
     out << " ----\n";
 
     if (!new_lines.empty()) {
